@@ -373,7 +373,7 @@ func c16run(c *ev.Ctx, r *ev.Report) {
 					}
 				}
 				return true
-			}, c.Expired)
+			}, func() bool { return c.Expired() || c.OverMemory() })
 			r.States += int64(st.Execs)
 			r.Transitions += int64(st.Transitions)
 			r.Validated += int64(st.Execs)
@@ -382,7 +382,7 @@ func c16run(c *ev.Ctx, r *ev.Report) {
 				r.Counters["max_points_per_execution"] = int64(st.MaxPoints)
 			}
 			if st.Stopped {
-				if c.Expired() {
+				if c.Expired() || c.OverMemory() {
 					r.Exhaustive = false
 				}
 				ss.done = true
